@@ -363,15 +363,19 @@ func report(cfg *Config, ld *Loaded, db *SpecDB, results []*UnitResult, loadS, g
 		if kf := known.match(cfg.Prop, name); kf != nil {
 			knownHits = append(knownHits, fmt.Sprintf("KNOWN-FINDING: property=%s %s — %s", cfg.Prop, name, kf.What))
 			kf.hit = true
+			if cfg.Tier == "thorough" {
+				// thorough: re-confirm the finding on the real code
+				rp := writeReplay(cfg, ld, name, s.Failed[0])
+				if tryReplay(cfg, ld, rp) {
+					fmt.Printf("  (known finding re-confirmed by replay: %s)\n", rp)
+				}
+			}
 			continue
 		}
 		// violation: write replay file, try to replay on the real code
 		o := s.Failed[0]
 		rp := writeReplay(cfg, ld, name, o)
-		confirmed := false
-		if o.Result.Status == "sat" && o.Result.Model != "" {
-			confirmed = tryReplay(cfg, ld, rp)
-		}
+		confirmed := tryReplay(cfg, ld, rp)
 		line := fmt.Sprintf("VIOLATION property=%s replay=%s", cfg.Prop, rp)
 		if !confirmed {
 			line += " no-failing-input-found"
